@@ -583,7 +583,37 @@ func (g *Gen) planDoc(invalid bool) *PlanDoc {
 		}
 	}
 	if invalid {
-		switch g.R.Intn(9) {
+		switch g.R.Intn(11) {
+		case 9, 10:
+			// a reference that differs from the title it means only in
+			// surrounding whitespace or case: titles are matched exactly, so it
+			// names no task
+			k := g.R.Intn(len(d.Tasks))
+			j := g.R.Intn(len(d.Tasks))
+			ref := *d.Tasks[j].Title
+			switch g.R.Intn(3) {
+			case 0:
+				ref += " "
+			case 1:
+				ref = " " + ref
+			case 2:
+				ref = strings.ToLower(ref)
+				if ref == *d.Tasks[j].Title {
+					ref += "\t"
+				}
+			}
+			exists := false
+			for _, t := range d.Tasks {
+				if *t.Title == ref {
+					exists = true
+				}
+			}
+			if !exists {
+				d.Tasks[k].After = []string{ref}
+				return d
+			}
+			d.Tasks = nil
+			return d
 		case 0:
 			d.Tasks = nil
 		case 1:
